@@ -74,7 +74,7 @@ def configs(tier):
 def alphabet(tier, expanded, extent_a):
     nreg = 5 if tier == "quick" else len(REGIONS)
     ev = []
-    cs = [[5]] if expanded else [None]
+    cs = [[0]] if expanded else [None]
     if expanded and tier == "thorough":
         cs.append([6])
     for r in range(nreg):
@@ -158,10 +158,11 @@ class World:
         import xyzpy as xyz
 
         self.cfg, self.d = cfg, d
-        # (c defaults to the label the data is later expanded to)
+        # (c defaults to the label the data is later expanded to: 0, a label
+        # that is false as a Python value)
         self.fs = [xfn.make_fn(["a", "b", "c"], kind=cfg.get("kind", "num"),
                                name="f05",
-                               version=v, defaults={"c": 5}) for v in (0, 1)]
+                               version=v, defaults={"c": 0}) for v in (0, 1)]
         self.path = os.path.join(d, cfg["name"])
         self.model = Model()
         self.h = self.new_harvester()
@@ -184,7 +185,7 @@ class World:
 
     def val(self, ver, a, b, c):
         return xfn.expected(self.cfg.get("kind", "num"),
-                            dict(a=a, b=b, c=5 if c is None else c), ver)
+                            dict(a=a, b=b, c=0 if c is None else c), ver)
 
     def new_cells(self, pts, ver, c):
         exp = self.model.expanded
@@ -346,7 +347,7 @@ class World:
             m.mem, m.disk = {}, {}
         elif kind == "expand":
             try:
-                self.h.expand_dims("c", 5)
+                self.h.expand_dims("c", 0)
             except Exception as e:
                 vio.append(("raised:" + type(e).__name__,
                             "expand_dims raised %r" % e))
@@ -354,7 +355,7 @@ class World:
 
             def ex(dct):
                 return None if dct is None else {
-                    (k[0], tuple(sorted(k[1] + (("c", 5),)))): v
+                    (k[0], tuple(sorted(k[1] + (("c", 0),)))): v
                     for k, v in dct.items()}
             src = m.mem if m.mem is not None else m.disk
             m.mem = ex(src)
@@ -436,7 +437,11 @@ class World:
                 vio.append(("file-name", "expected the data in %r, directory "
                             "holds %r" % (want_list, listing)))
             try:
-                disk = cmp.ds_to_dict(xyz.load_ds(self.path, engine=eng))
+                dds = xyz.load_ds(self.path, engine=eng)
+                if m.expanded and "c" not in dds.coords:
+                    vio.append(("dimension-unlabelled", "the data on disk has "
+                                "a dimension 'c' without labels"))
+                disk = cmp.ds_to_dict(dds)
             except Exception as e:
                 vio.append(("disk-unreadable", "load_ds raised %r" % e))
                 disk = "?"
@@ -446,6 +451,10 @@ class World:
         actor = self.h2 if self.last == "h2" else self.h
         try:
             fd = actor.full_ds
+            if fd is not None and m.expanded and "c" in fd.dims and \
+                    "c" not in fd.coords:
+                vio.append(("dimension-unlabelled", "full_ds has a dimension "
+                            "'c' without labels"))
             mem = None if fd is None else cmp.ds_to_dict(fd)
         except Exception as e:
             vio.append(("memory-unreadable", "full_ds raised %r" % e))
